@@ -88,7 +88,12 @@ TDeser == IsEvent("Deser") /\ LET e == Log[l]  b == blob[e.blob] IN
             /\ obj' = (e.dst :> b.st) @@ obj
             /\ UNCHANGED <<blob, env>>
 
+\* an original and the sketch restored from its image received the same calls with the same coin / shuffle seeds
+TTwin == IsEvent("Twin") /\ LET e == Log[l]  a == obj[e.a]  b == obj[e.b] IN
+            /\ Chk("C09:lockstep", a.k = b.k /\ a.dim = b.dim /\ a.n = b.n /\ a.est = b.est /\ a.lev = b.lev)
+            /\ UNCHANGED <<obj, blob, env>>
+
 TInit == obj = <<>> /\ l = 1 /\ blob = <<>> /\ env = [coord |-> <<>>, R |-> 0, S |-> 1, kernel |-> "l1", zero |-> 0]
-TNext == TBegin \/ TNew \/ TUpdate \/ TUpdateBad \/ TMerge \/ TMergeBad \/ TEst \/ TObs \/ TCopy \/ TSer \/ TDeser
+TNext == TBegin \/ TNew \/ TUpdate \/ TUpdateBad \/ TMerge \/ TMergeBad \/ TEst \/ TObs \/ TCopy \/ TSer \/ TDeser \/ TTwin
 TSpec == TInit /\ [][TNext]_tvars
 ====
